@@ -29,7 +29,7 @@ FORMS = [
     ("[n0]", "n0", {}), ("[n0*2]", "n0*2", {}), ("[n0-2]", "n0-2", {}), ("[K]", "K", {"K": 2}), ("[K+n0]", "K+n0", {"K": 2}),
     ("[n0]#n0=7", "n0", {"n0": 7}), ("[2+n0*K]", "2+n0*K", {"K": 3}), ("[]", None, {}), ("[EOF]", EOF, {}),
 ]
-INNER_DIMS = [("[2][3]", (2, 3)), ("[n0][2]", ("n0", 2)), ("[2][n0]", (2, "n0")), ("[3][1]", (3, 1))]
+INNER_DIMS = [("[2][3]", (2, 3)), ("[n0][2]", ("n0", 2)), ("[2][n0]", (2, "n0")), ("[3][1]", (3, 1)), ("[EOF][n0]", (EOF, "n0")), ("[EOF][2]", (EOF, 2))]
 
 
 def cases(tier):
@@ -44,13 +44,15 @@ def cases(tier):
                     continue
                 yield (ename, flabel, pos)
     for ename in ("uint8", "int16", "uint24", "char", "wchar", "in_t", "E16s"):
-        for dlabel, _ in INNER_DIMS:
+        for dlabel, dims in INNER_DIMS:
             for pos in ("last", "mid"):
+                if dims[0] == EOF and pos == "mid":
+                    continue
                 yield (ename, dlabel, pos)
 
 
 def jobs(tier):
-    return [(tier, c) for c in defs.chunks(cases(tier), 8)] + [("refusal", tier), ("samename", tier)]
+    return [(tier, c) for c in defs.chunks(cases(tier), 8)] + [("refusal", tier), ("samename", tier), ("long", tier)]
 
 
 def build(ename, flabel, pos):
@@ -225,7 +227,54 @@ def samename(tier) -> JobResult:
     return res
 
 
+LONG_LENGTHS = (63, 64, 65, 127, 128, 255, 256, 257, 300, 513)
+
+
+def long_arrays(tier) -> JobResult:
+    """Long arrays and strings (bulk / chunked code paths): null-terminated, expression-sized and to-end-of-stream, followed by a field."""
+    res = JobResult()
+    elems = {"char": CHAR, "wchar": WCHAR, "uint8": INTS["uint8"], "int16": INTS["int16"], "uint24": INTS["uint24"], "uleb128": ULEB, "E8": A.E8}
+    for ename, e in elems.items():
+        for form, count in (("[]", None), ("[n * 2 + m]", "n * 2 + m"), ("[EOF]", EOF)):
+            fs = [TField("n", INTS["uint16"]), TField("m", INTS["uint8"]), TField("f", TArr(e, count))]
+            if count != EOF:
+                fs.append(TField("tail", INTS["uint16"]))
+            st = TStruct("S", tuple(fs))
+            text = render(st)
+            for endian in "<>":
+                cfg = Cfg(endian=endian)
+                L = sc.Loaded(text, endian, False)
+                res.transitions += 2
+
+                def viol(kind, detail, reader=None, inp=None, ename=ename, form=form):
+                    res.violations.append(Violation(kind, f"long:{kind}|{ename}|{form}", {"long": ename, "form": form, "endian": endian, "label": inp.label if inp else None},
+                                                    f"{text!r} {endian} {inp.label if inp else ''}: " + detail[:300], {"elem": ename, "form": form, "reader": reader, "long": True}))
+
+                for compiled, ex in L.err.items():
+                    viol("load:raises", f"{ex!r}")
+                ins = []
+                for ln in LONG_LENGTHS:
+                    if isinstance(e, TChar):
+                        items = bytes(0x21 + (i % 90) for i in range(ln))
+                    elif isinstance(e, TWchar):
+                        items = "".join(chr(0x100 + (i % 500)) for i in range(ln))
+                    else:
+                        alpha = [x for x in values.value_alphabet(e, cfg, {}) if not codec.is_zero(x)]
+                        items = [alpha[i % len(alpha)] for i in range(ln)]
+                    n, m = (ln - 1) // 2, (ln - 1) % 2 + 1 if False else (ln % 2)
+                    n = (ln - m) // 2
+                    vals = {"n": n, "m": m, "f": items, "tail": 0x7E7F}
+                    data = codec.encode_struct(st, vals, cfg) + (b"" if count == EOF else sc.SENTINEL)
+                    ins.append(sc.model_decode(st, data, cfg, f"len={ln}", vals))
+                res.nontrivial += len(ins)
+                _conf.conform(L, ins, res, viol)
+    res.samples.append({"long": list(elems), "lengths": list(LONG_LENGTHS)})
+    return res
+
+
 def run(job) -> JobResult:
+    if job[0] == "long":
+        return long_arrays(job[1])
     if job[0] == "refusal":
         return refusal(job[1])
     if job[0] == "samename":
@@ -250,6 +299,8 @@ def replay(case):
         return [v for v in refusal("thorough").violations if v.case == case]
     if "samename" in case:
         return [v for v in samename("thorough").violations if v.case == case]
+    if "long" in case:
+        return [v for v in long_arrays("thorough").violations if v.case == case]
     res = JobResult()
     check_case(case["elem"], case["form"], case["pos"], case["endian"], case["align"], res, "thorough")
     return res.violations
